@@ -21,8 +21,13 @@ TRUSTED = ["CPython `re`, `str.split/join` on the patterns used by execute_envPr
 ASSUMPTIONS = ["delimiters are non-empty literal strings",
                "the oracle's notion of 'element' is: pieces of the value split at the literal delimiter, empties dropped"]
 
+MIRRORS = [("python/eups/table.py", "Action.execute_envPrepend"), ("python/eups/table.py", "Action.execute_envSet"),
+           ("python/eups/table.py", "Action.execute_envUnset"), ("python/eups/table.py", "Action.expandEnvironmentalVariable"),
+           ("python/eups/table.py", "Action.pathUnique"), ("python/eups/Eups.py", "Eups.setEnv"),
+           ("python/eups/Eups.py", "Eups.unsetEnv")]
+
 DELIMS = [":", ":", ":", ":", ";", ",", " ", "|", "-", "::", ".", "+", "*", "?"]
-ATOMS = ["a", "b", "/x/y", "q", "c d", "/opt/p/1.0/bin", "zz"]
+ATOMS = ["a", "b", "/x/y", "q", "c d", "/opt/p/1.0/bin", "zz", "$FOO/../lib", "$BAR"]   # brace-less $NAME is NOT a reference for eups
 VARS = ["V", "W"]
 
 
@@ -90,9 +95,9 @@ def gen_case(rng):
     delim = rng.choice(DELIMS)
     env = {}
     if rng.random() < 0.7:
-        env["FOO"] = "/foo"
+        env["FOO"] = "/foo" if rng.random() < 0.8 else ""      # defined-but-empty is still defined
     if rng.random() < 0.4:
-        env["BAR"] = "bar"
+        env["BAR"] = "bar" if rng.random() < 0.8 else ""
     acts, specs = [], []
     nact = 1 if rng.random() < 0.6 else rng.randint(2, 6)
     roundtrip = rng.random() < 0.25      # setup action followed by its own unsetup
@@ -335,7 +340,7 @@ def evaluate(ctx, cases):
 def run(ctx):
     cases = corpus_cases()
     ctx.hist("corpus", len(cases))
-    n = ctx.n(6000, 200000)
+    n = ctx.n(40000, 400000)
     batch = 4000
     evaluate(ctx, cases)
     done = 0
